@@ -362,7 +362,9 @@ func mutateBytes(t *rapid.T, in []byte, other []byte) []byte {
 				pos = cand[rapid.IntRange(0, len(cand)-1).Draw(t, "cand")]
 			}
 		}
-		switch rapid.SampledFrom([]string{"flip", "set", "insert", "delete", "dup", "trunc", "splice", "repeat"}).Draw(t, "mut") {
+		switch rapid.SampledFrom([]string{"flip", "set", "insert", "delete", "dup", "trunc", "splice", "repeat", "append"}).Draw(t, "mut") {
+		case "append":
+			out = append(out, rapid.SampledFrom([]string{"x", "garbage\n", "\n\ntrailing\n", strings.Repeat(" ", 1500), "\x00"}).Draw(t, "tail")...)
 		case "flip":
 			out[pos] ^= 1 << uint(rapid.IntRange(0, 7).Draw(t, "bit"))
 		case "set":
@@ -432,6 +434,9 @@ func c14LoadSeeds() {
 				c14Seeds.files = append(c14Seeds.files, b)
 			}
 		}
+	}
+	for _, n := range []int{0, 48, 96, 480, 100} {
+		c14Seeds.armored = append(c14Seeds.armored, []byte(refage.Armor(hx.PRG(uint64(n), n))))
 	}
 	for i := 0; i < 3; i++ {
 		c14Seeds.keys = append(c14Seeds.keys, []byte(refage.Bech32Encode("AGE-SECRET-KEY-", p.X25519[i])), []byte(refage.Bech32Encode("age", refage.X25519Public(p.X25519[i]))))
